@@ -405,14 +405,11 @@ func main() {
 		c := wcfg{
 			v:        versions[i%len(versions)],
 			human:    i%5 == 4,
-			encrypt:  i%3 == 2 && (e.Thorough || i < 9), // AES reads 16 bytes at a time: the costliest documents
+			encrypt:  i%3 == 2 && (e.Thorough || i < 6), // AES reads 16 bytes at a time: the costliest documents
 			seekable: i%2 == 1,
 			bigStm:   i%4 == 1 || i%4 == 2,
 			nPages:   1 + i%3,
 			filters:  2 + i%3,
-		}
-		if i == 8 && !e.Thorough {
-			c.v = pdf.V1_4 // RC4
 		}
 		if e.Thorough {
 			c.filters = 3 + R.IntN(6)
@@ -426,6 +423,9 @@ func main() {
 	}
 
 	only := os.Getenv("C19_ONLY") // debugging aid: substring of the document name
+	timing := map[string]float64{}
+	t0 := time.Now()
+	lap := func(what string) { timing[what] += time.Since(t0).Seconds(); t0 = time.Now() }
 	for di, d := range docs {
 		if only != "" && !strings.Contains(d.name, only) {
 			continue
@@ -467,6 +467,7 @@ func main() {
 			}
 		}
 		curShape, errInj, activeModes = faultShapes[0], errPlain, fmodes
+		lap("doc:" + strings.SplitN(d.name, "[", 2)[0])
 		if aborted() {
 			break
 		}
@@ -475,14 +476,17 @@ func main() {
 	if !aborted() {
 		sinkSide(R)
 	}
+	lap("sink programs")
 	if !aborted() && only == "" {
 		sweepSide()
 	}
+	lap("sink sweep")
 	if only == "" {
 		chainSide(R)
 		policySide()
 	}
+	lap("chain+policy")
 
 	e.Finish("one evaluation = one public call (NewReader in a given mode, SequentialScan+MakeReader, Get, DecodeStream+ReadAll, a typed decode or page walk) run with the byte source failing at one ReadAt index in one fault mode, or one Writer program run with the sink failing at one Write/Seek index; non-trivial = the injected fault actually fired during the call; all indices of every call are enumerated",
-		map[string]any{"documents": len(docs), "watchdog_timeouts": hangs, "failing_cases_by_signature": failsPerSig})
+		map[string]any{"documents": len(docs), "watchdog_timeouts": hangs, "failing_cases_by_signature": failsPerSig, "seconds": timing})
 }
